@@ -59,6 +59,10 @@ def run_property(prop, tier, quiet=False):
         print("  adequacy: %d/%d mutants reported, %d/%d rewrites silent%s%s" % (
             adq["caught"], adq["mutants"], adq["silent"], adq["rewrites"],
             ("; MISSED %s" % adq["missed"]) if adq["missed"] else "", ("; NOISY %s" % adq["noisy"]) if adq["noisy"] else ""))
+        gen = selftest.generated_sample(prop)
+        ctx.sample({"generated_mutant_sample": gen})
+        print("  generated mutants in the anchored ranges: %d, sampled %d: %d reported, %d analysis errors, %d unreported (mostly behaviour-preserving, DESIGN 10.3)" % (
+            gen["generated_in_anchor_ranges"], gen["sampled"], gen["reported"], gen["analysis_error"], len(gen["unreported"])))
     status = "violated" if unlisted else "holds"
     core.write_evidence(ctx, mod.LEVEL, mod.EXPLANATION, mod.ASSUMPTIONS, len(unlisted), hits, status, _lk(mod, ctx))
     n_inst = sum(len(r.instances) for r in ctx.rules.values())
